@@ -13,9 +13,10 @@ import NV.Driver.Config
 import NV.Driver.Cache
 import NV.Driver.Fwd
 import NV.Driver.Prof
+import NV.Driver.TTL
 namespace NV
 
-def steppers : List (List String → Option String) := [stepCore, stepCap, stepRaceSoak, stepListen, stepUpfault, Disc.stepDiscovery, Config.stepConfig, stepCache, stepFwd, stepProf]
+def steppers : List (List String → Option String) := [stepCore, stepCap, stepRaceSoak, stepListen, stepUpfault, Disc.stepDiscovery, Config.stepConfig, stepCache, stepFwd, stepProf, stepTTL]
 
 def step (line : String) : String :=
   let toks := line.splitOn " "
